@@ -148,6 +148,7 @@ type runner struct {
 	rng     *hx.Rng
 	tier    string
 	seed    uint64
+	pool    *hostilePool
 	coqLeft map[string]int // per layer budget of cases handed to the model
 	n       int
 	fails   int
@@ -167,8 +168,18 @@ func errKind(o Outcome) string {
 }
 
 func (r *runner) emit(sd *Seed, t Target, c Case, in []byte, wellFormed bool) Outcome {
+	in = r.pool.substitute(in)
+	flood0, contact0 := r.pool.flooded(), r.pool.contacts()
+
 	o := fence(func() error { return t.Run(in) })
 	r.n++
+
+	// out of proportion: the call took more than 32 MiB from an endless stream a ~100 byte member pointed at
+	if o.Class != "panic" && o.Class != "timeout" && r.pool.flooded()-flood0 > 1<<25 {
+		o = Outcome{Class: "timeout", Err: fmt.Sprintf("read %d bytes of an endless stream", r.pool.flooded()-flood0), Millis: o.Millis}
+	}
+
+	derefs := r.pool.contacts() > contact0
 
 	rec := &hx.Record{Kind: c.Gen, Case: c, Observed: o}
 	rec.Class = sd.Layer + "|" + t.EP + "|" + strings.Split(sd.Name, ".")[0] + "|" + c.Path + "|" + c.Mut + "|" + o.Class
@@ -177,6 +188,10 @@ func (r *runner) emit(sd *Seed, t Target, c Case, in []byte, wellFormed bool) Ou
 
 	if o.Class == "err" {
 		rec.Dist = append(rec.Dist, "ep-err:"+t.EP+":"+errKind(o))
+	}
+
+	if derefs {
+		rec.Dist = append(rec.Dist, "dereferences-sender-url:"+t.EP)
 	}
 
 	if o.Class == "panic" || o.Class == "timeout" {
@@ -498,6 +513,7 @@ func main() {
 	defer tr.Close()
 
 	r := &runner{tr: tr, rng: hx.NewRng(a.Seed), tier: a.Tier, seed: a.Seed, coqLeft: map[string]int{}}
+	r.pool = newHostilePool()
 	r.sw = newSyncWorld(a.Tier == "thorough")
 
 	if a.Replay != "" {
